@@ -28,7 +28,7 @@ def cases(tier, seed):
     th = tier == "thorough"
     rng = random.Random(seed * 104729 + 5)
     cfgs = []
-    nmax, smax = (64, 9) if th else (26, 6)
+    nmax, smax = (64, 9) if th else (32, 7)
     for n in range(1, nmax + 1):
         for s in range(1, smax + 1):
             for ram in range(0, s + 1):
